@@ -47,19 +47,28 @@ func (l *IDNNotNFC) CheckApplies(c *x509.Certificate) bool {
 }
 
 func (l *IDNNotNFC) Execute(c *x509.Certificate) *lint.LintResult {
+	// Every label of every name is examined so that the result does not depend
+	// on the order of the names: a label that is not in NFC is reported wherever
+	// it sits, a label that cannot be converted only makes the lint not
+	// applicable when no label offends.
+	unconvertible := false
 	for _, dns := range c.DNSNames {
 		labels := strings.Split(dns, ".")
 		for _, label := range labels {
 			if util.HasXNLabelPrefix(label) {
 				unicodeLabel, err := util.IdnaToUnicode(label)
 				if err != nil {
-					return &lint.LintResult{Status: lint.NA}
+					unconvertible = true
+					continue
 				}
 				if !norm.NFC.IsNormalString(unicodeLabel) {
 					return &lint.LintResult{Status: lint.Error}
 				}
 			}
 		}
+	}
+	if unconvertible {
+		return &lint.LintResult{Status: lint.NA}
 	}
 	return &lint.LintResult{Status: lint.Pass}
 }
